@@ -29,6 +29,7 @@ type c18Scenario struct {
 	name   string
 	n      int
 	same   bool // every record of a container carries the same message (samples share a series)
+	ties   bool // records of different containers share timestamps (rendering is then not compared)
 	labels func(i int) map[string]string
 	query  string
 	params logqlengine.EvalParams
@@ -58,6 +59,9 @@ var c18Scenarios = []c18Scenario{
 		return m
 	}},
 	{name: "log-5", n: 5, query: `{}`, params: c18Log()},
+	{name: "tie-limit-3", n: 3, ties: true, query: `{}`, params: logqlengine.EvalParams{Start: 0, End: otelstorage.Timestamp(10 * c18sec), Step: time.Second, Limit: 2}},
+	{name: "tie-distinct-3", n: 3, ties: true, same: true, query: `{} | distinct msg`, params: c18Log()},
+	{name: "tie-first-3", n: 3, ties: true, query: `first_over_time({} | label_format v="{{ __line__ | trimPrefix \"m\" | trunc 1 }}" | unwrap v [10s]) by (container_state)`, params: logqlengine.EvalParams{Start: otelstorage.Timestamp(5 * c18sec), End: otelstorage.Timestamp(5 * c18sec), Limit: -1}},
 	{name: "count-samemsg-2", n: 2, same: true, query: `count_over_time({}[4s])`, params: c18Range()},
 	{name: "max-samemsg-2", n: 2, same: true, query: `max(count_over_time({}[4s])) by (container, msg)`, params: c18Range()},
 }
@@ -84,7 +88,11 @@ func c18Containers(sc c18Scenario) []fakedocker.Container {
 		var recs []fakedocker.Rec
 		for j := 0; j < 3; j++ {
 			// distinct timestamps across all containers
-			recs = append(recs, fakedocker.Rec{Stream: byte(1 + j%2), TS: fakedocker.TS(int64(1+j)*c18sec + int64(i)*1000 + int64(j)), Msg: c18Msg(sc, i, j)})
+			ts := int64(1+j)*c18sec + int64(i)*1000 + int64(j)
+			if sc.ties {
+				ts = int64(1+j) * c18sec
+			}
+			recs = append(recs, fakedocker.Rec{Stream: byte(1 + j%2), TS: fakedocker.TS(ts), Msg: c18Msg(sc, i, j)})
 		}
 		var labels map[string]string
 		if sc.labels != nil {
@@ -209,7 +217,7 @@ func c18Exec(c *vsched.Ctx, in c18Input, mapOrders bool) (obs c18Obs) {
 	}
 	var rendered bytes.Buffer
 	render := func() {
-		if evalErr == nil && data.Type == lokiapi.StreamsResultQueryResponseData {
+		if evalErr == nil && data.Type == lokiapi.StreamsResultQueryResponseData && !sc.ties {
 			if err := renderResult(&rendered, renderOptions{timestamp: true, container: true, color: false}, data); err != nil {
 				obs.Err = "render: " + err.Error()
 			}
@@ -239,9 +247,11 @@ func c18Scenario1(r *vkit.Run, in c18Input) {
 	case "joint":
 		maps = true
 	}
+	r.Begin("C18", in)
 	ref := c18Exec(vsched.NewCtx(nil), in, maps)
 	outcomes := map[string]bool{}
 	st := vsched.Explore(bound, 0, func(c *vsched.Ctx) {
+		r.BeginChoices("C18", in, c.Prefix())
 		obs := c18Exec(c, in, maps)
 		r.Eval()
 		k := obs.Result + "\x00" + obs.Rendered + "\x00" + obs.Err + obs.Deadlock + strings.Join(obs.Panics, ";")
